@@ -41,6 +41,8 @@ def sources(tier, seed):
     out += [(src, "gfeat") for _, src in gfeat.programs() if len(src) < 3000]
     # every expression kind in every syntactic slot (two levels; three-level chains at both tiers: they are cheap)
     out += [(src, "gnest") for _, src in gnest.programs(3)]
+    out += [(src, "gtype") for _, src in gnest.type_programs()]
+    out += [(src, "gstmt") for _, src in gnest.stmt_programs()]
     n_rel = 1500 if tier == "quick" else 8000
     for prof in ("core", "window", "project"):
         out += [(grel.random_program_text(rng, prof), "grel") for _ in range(n_rel // 3)]
@@ -156,7 +158,7 @@ def run(tier, seed):
     run.coverage = {
         "evaluations": obs.get("sources", 0),
         "distinct_nontrivial": obs.get("changed_by_fmt", 0),
-        "rule": "sources = feature programs (every literal kind, identifiers needing backticks, named args, modules, annotations, types, long lines) + corpus + random relational programs + every expression kind, parenthesised, in every syntactic slot that takes an expression (binary/unary operands, range bounds, call/named arguments, parameter defaults, function bodies, case branches, tuple/array items, interpolations, transform arguments), two and three levels deep + every (parent, child, side) operator nesting and unary adjacency in minimal and full parentheses + random expression trees; "
+        "rule": "sources = feature programs (every literal kind, identifiers needing backticks, named args, modules, annotations, types, long lines) + corpus + random relational programs + every expression kind, parenthesised, in every syntactic slot that takes an expression (binary/unary operands, range bounds, call/named arguments, parameter defaults, function bodies, case branches, tuple/array items, interpolations, transform arguments), two and three levels deep + every type expression in every place that takes a type + every ordered pair of statement kinds (newline / blank line / comment between them, top level and inside a module) + every (parent, child, side) operator nesting and unary adjacency in minimal and full parentheses + random expression trees; "
                 "non-trivial = parseable sources whose formatted text differs from the input (the formatter actually rewrote something)",
         "distinct_sources": distinct,
         "operator_triples": len(gexpr.all_triples()) + len(gexpr.unary_triples()),
